@@ -143,6 +143,16 @@ theorem journalfold_restores_invariant {base : List Nat} {s s' : Node} {o : List
     (h : journalFold true s = .ok (s', o)) : MInv base s' :=
   PSO.NodeSend.journalFold_minv hb hg heff hm h
 
+/-- A newly added node is not counted for any position: after the leader accepts `add x`, `matchIndex x = 0` — the
+commit of the change needs a majority of the new configuration that really stores the entries. -/
+theorem added_node_not_counted {cfg : Conf} {s s' : Node} {cmd : Cmd} {cb : Cb} {o : List Out} {br : Branch} {x : Nat}
+    (h : leaderDispatch cfg s cmd cb = .ok (s', o, br)) (hdyn : cfg.dynMember = true) (hk : cmd.kind = .add x)
+    (hbr : br ≠ .denied) : s'.matchIndex.get? x = some 0 :=
+  PSO.NodeSend.added_node_not_counted h hdyn hk hbr
+
+example : ∃ s' o, leaderDispatch exConf exLeader ⟨.add 3, 7, 80, 56⟩ (.loc 41) = .ok (s', o, .appendLocal) ∧
+    s'.matchIndex.get? 3 = some 0 := ⟨_, _, rfl, rfl⟩
+
 /-- non-vacuity of `members_eq_fold`: a run with an accepted change, an apply, a capture and a restart -/
 example : ∃ s, MReach exConf [1, 2] s ∧ s.members = [1, 2, 3] ∧ s.log.length = 4 := by
   have h0 : MReach exConf [1, 2] exLeader := .init (by
